@@ -25,7 +25,9 @@ RULE = (
     "pairs (same, equivalent, convertible incl. offset and non-dyadic factors, incompatible) x masks FLEX/NONE/explicit; "
     "links between two layouts of the same UniformGrid (axes_reversed / axes_increase / order differ, 1-3 D, non-square), "
     "links under a memory limit (0 and small: publications spilled to disk and read back) with masked payloads of varying masks; "
-    "a separate stream for the memory-sharing rule (views, strided views, copies, same object, converted); a stream with 2-3 "
+    "a separate stream for the memory-sharing rule (views, strided views, copies, same object, buffers updated in place and published "
+    "again, converted; infos with FLEX / NONE / nomask / explicit masks); producers alternating two pre-allocated buffers with consumers "
+    "stepping over publications and working in place on their own (converted) arrays; a stream with 2-3 "
     "consumers on one output (direct / behind Scale(1.0)), per-consumer forward requests that are mutually out of step plus backwards requests. "
     "non-trivial = a served request strictly between two publications, or a delivered non-scalar payload; "
     "distinct by canonical case hash"
@@ -270,11 +272,15 @@ def _gen_share_case(rng):
     """memory-sharing stream: 1-d NoGrid / small uniform grid, payloads are views of a few pooled arrays"""
     g = dict(rng.choice([{"kind": "no", "dsh": [-1]}, {"kind": "no", "dsh": [-1]}, {"kind": "no", "dsh": [-1, -1]},
                          {"kind": "uni", "dims": [3, 4], "order": "F", "rev": False, "loc": "cells"},
-                         {"kind": "uni", "dims": [5], "order": "C", "rev": False, "loc": "cells"}]))
+                         {"kind": "uni", "dims": [5], "order": "C", "rev": False, "loc": "cells"}, {"kind": "no", "dsh": [3]}]))
     grp = rng.choice(EXACT_GROUPS[:3])
     uo = rng.choice(grp)
     ui = rng.choice(grp + [None])
     ds = grid_shape(g)
+    maskspec = rng.choice(["flex", "flex", "flex", "none", "nomask", "nomask", "bits", "bits"])
+    if maskspec == "bits":
+        maskspec = [rng.random() < 0.35 for _ in range(_prod(ds))] if -1 not in ds else "nomask"
+    inplace = rng.random() < 0.4  # buffers updated in place and published again (no pulls afterwards: the retained alias changes too)
     npush = rng.randint(3, 7)
     ts, gaps = _gen_times(rng, npush)
     ops = []
@@ -285,6 +291,12 @@ def _gen_share_case(rng):
         mode = rng.random()
         pool = rng.choice([0, 0, 1])
         step = rng.choice([1, 1, 1, 2])
+        if inplace and ops and mode < 0.7:
+            npushed = len([o for o in ops if o[0] == "push"])
+            j = npushed - 1 if mode < 0.45 else rng.randrange(npushed)  # mostly the object published last
+            pj = [o for o in ops if o[0] == "push"][j][2]
+            ops.append(["push", ts[k], dict(pj, vals=[(k * 32 + i) for i in range(_prod(pj["shape"]))], buf={"reuse": j})])
+            continue
         if prev is not None and mode < 0.2:
             buf = dict(prev)  # the same memory again (a new view object of the same bytes)
         elif prev is not None and mode < 0.3:
@@ -305,9 +317,44 @@ def _gen_share_case(rng):
         units = rng.choice(grp) if wrap.startswith("qty") else None
         mask = [rng.random() < 0.3 for _ in range(n)] if wrap in ("masked", "qty_masked") else None
         ops.append(["push", ts[k], {"shape": shape, "vals": None, "wrap": wrap, "mask": mask, "units": units, "buf": buf}])
-        if rng.random() < 0.4:
+        if rng.random() < 0.4 and not inplace:
             ops.append(["pull", rng.choice(ts[: k + 1])])
-    return {"grid": g, "uo": uo, "ui": ui, "mask": "flex", "in_mask": "flex", "ops": ops}
+    return {"grid": g, "uo": uo, "ui": ui, "mask": maskspec, "in_mask": "flex", "ops": ops}
+
+
+def _gen_dbuf_case(rng):
+    """a producer that alternates two pre-allocated buffers (updated in place between publications) and consumers that
+    need a unit conversion, step over publications and work in place on what they pulled"""
+    g = dict(rng.choice([{"kind": "no", "dsh": []}, {"kind": "no", "dsh": [-1]}, {"kind": "no", "dsh": [3]},
+                         {"kind": "uni", "dims": [3, 4], "order": "F", "rev": False, "loc": "cells"}]))
+    grp = rng.choice([["m", "km", "cm", "mm"], ["s", "min", "h"], ["m/s", "km/h", "mm/d"]])
+    uo = rng.choice(grp)
+    others = [u for u in grp if u != uo]
+    consumers = [{"kind": rng.choice(["direct", "direct", "direct", "scale"]), "ui": rng.choice(others + others + [uo, None])}
+                 for _ in range(rng.choice([1, 2, 2]))]
+    ds = [x if x != -1 else rng.choice([1, 2, 3]) for x in grid_shape(g)]
+    n = _prod(ds)
+    wrap = rng.choice(["qty", "qty", "qty", "array", "qty_masked", "masked"])
+    shape = ([1] + ds) if rng.random() < 0.8 else list(ds)  # with the time axis the retained object is the producer's own buffer
+    units = (uo if rng.random() < 0.8 else rng.choice(others)) if wrap.startswith("qty") else None
+    mask = [rng.random() < 0.3 for _ in range(n)] if wrap in ("masked", "qty_masked") else None
+    npush = rng.randint(4, 9)
+    ts, gaps = _gen_times(rng, npush)
+    stride = [rng.choice([1, 2, 2, 2, 3]) for _ in consumers]
+    ops = []
+    for k in range(npush):
+        pl = {"shape": shape, "vals": [k * 32 + i for i in range(n)], "wrap": wrap, "mask": mask, "units": units,
+              "buf": None if k < 2 else {"reuse": k % 2}}
+        ops.append(["push", ts[k], pl])
+        for c in range(len(consumers)):
+            if k % stride[c] == 0 or rng.random() < 0.1:
+                # only the newest two publications are intact (the older ones live in a buffer that has been overwritten)
+                t = ts[k] if (k == 0 or rng.random() < 0.75) else rng.randint((ts[k - 1] + ts[k]) // 2 + 1, ts[k])
+                op = ["pull", t, c] + (["scribble"] if rng.random() < 0.5 else [])
+                ops.append(op)
+                if rng.random() < 0.5:
+                    ops.append(["pull", t, c] + (["scribble"] if rng.random() < 0.3 else []))
+    return {"grid": g, "uo": uo, "ui": consumers[0]["ui"], "consumers": consumers, "mask": "flex", "in_mask": "flex", "ops": ops}
 
 
 LAYOUT_DIMS = [[3, 4], [4, 3], [2, 4], [3, 2, 4], [2, 3, 3], [3, 4, 2], [4, 2, 3], [4], [3, 3]]
@@ -369,7 +416,9 @@ def _gen_multi_case(rng, flavour=None):
             r = max(r, lo)
         else:
             r = _gen_request(rng, pubs, lo, gaps, False)
-        ops.append(["pull", r, c])
+        ops.append(["pull", r, c] + (["scribble"] if rng.random() < 0.3 else []))
+        if rng.random() < 0.25:
+            ops.append(["pull", r, c] + (["scribble"] if rng.random() < 0.3 else []))  # the same publication once more
         if pubs[0] <= r <= pubs[-1]:
             last[c] = r
         if k >= len(ts) and rng.random() < 0.15:
@@ -458,6 +507,23 @@ for _lim in (0, 40):
                            ["push", 14, _p([3], [17, 18, 19], "masked", mask=[False, False, False])],
                            ["push", 15, _p([3], [25, 26, 27])],
                            ["pull", 15, 0], ["pull", 0, 1], ["pull", 5, 1], ["pull", 12, 1], ["pull", 15, 1]]})
+# seeded mutant C08_j: (a) producer alternating two pre-allocated Quantity buffers (updated in place), consumer in cm pulling
+# every second publication; (b) consumer working in place on the converted array it pulled, then pulling the same publication again
+CORPUS.append({"grid": _NG1, "uo": "m", "ui": "cm", "mask": "flex", "in_mask": "flex",
+               "consumers": [{"kind": "direct", "ui": "cm"}, {"kind": "direct", "ui": "km"}],
+               "ops": [["push", 0, _p([1, 2], [8, 16], "qty", units="m")], ["pull", 0, 0], ["pull", 0, 1, "scribble"], ["pull", 0, 1, "scribble"], ["pull", 0, 1],
+                       ["push", 10, _p([1, 2], [40, 48], "qty", units="m")],
+                       ["push", 20, _p([1, 2], [72, 80], "qty", units="m", buf={"reuse": 0})], ["pull", 20, 0], ["pull", 20, 1],
+                       ["push", 30, _p([1, 2], [104, 112], "qty", units="m", buf={"reuse": 1})],
+                       ["push", 40, _p([1, 2], [136, 144], "qty", units="m", buf={"reuse": 0})], ["pull", 40, 0, "scribble"], ["pull", 40, 0], ["pull", 31, 1]]})
+# seeded mutant C08_k: the same buffer updated in place and published twice in a row must be refused also on outputs whose
+# info carries an explicit mask / nomask (prepare wraps the payload without copying it); converted quantities and lists are fresh
+for _m in ([False, True, False], "nomask", "flex", "none"):
+    CORPUS.append({"grid": {"kind": "no", "dsh": [3]}, "uo": "m", "ui": "m", "mask": _m, "in_mask": "flex",
+                   "ops": [["push", 0, _p([3], [8, 16, 24])], ["push", 5, _p([3], [32, 40, 48], buf={"reuse": 0})],
+                           ["push", 6, _p([1, 3], [1, 2, 3], "qty", units="m")], ["push", 7, _p([1, 3], [4, 5, 6], "qty", units="m", buf={"reuse": 2})],
+                           ["push", 8, _p([3], [1, 2, 3], "qty", units="km")], ["push", 9, _p([3], [4, 5, 6], "qty", units="km", buf={"reuse": 4})],
+                           ["push", 10, _p([3], [1, 2, 3], "list")], ["push", 11, _p([3], [4, 5, 6], "list", buf={"same_as": 6})]]})
 # witness of KNOWN finding F21: converting a fully masked 0-d quantity yields numpy's np.ma.masked singleton, so the second
 # such publication "shares memory" with the first although the caller's buffers are distinct (finam refuses it)
 CORPUS.append({"grid": _NG0, "uo": "km/h", "ui": "km/h", "mask": "flex", "in_mask": "flex",
@@ -476,7 +542,8 @@ def generate(rng, tier):
         if i % 5 == 4:
             cases.append(_gen_share_case(rng))
         elif i % 5 == 2:
-            cases.append(_gen_multi_case(rng, [None, "relay", "spill", "relay"][(i // 5) % 4]))
+            fl = [None, "relay", "spill", "relay", "dbuf"][(i // 5) % 5]
+            cases.append(_gen_dbuf_case(rng) if fl == "dbuf" else _gen_multi_case(rng, fl))
         else:
             cases.append(_gen_case(rng, malformed=(i % 5 == 3), exact=(i % 5 == 0)))
     return cases
@@ -490,6 +557,8 @@ def _mask_arg(spec, shape):
         return fm.Mask.FLEX
     if spec == "none":
         return fm.Mask.NONE
+    if spec == "nomask":
+        return np.ma.nomask
     return np.array(spec, dtype=bool).reshape(shape)
 
 
@@ -571,8 +640,12 @@ def run_impl(case):
         if op[0] == "push":
             p = op[2]
             b = p.get("buf")
-            if b is not None and "same_as" in b:
-                obj = pushed[b["same_as"]]
+            if b is not None and ("same_as" in b or "reuse" in b):
+                obj = pushed[b["same_as"] if "same_as" in b else b["reuse"]]
+                rawj = _raw_array(obj)
+                if "reuse" in b and rawj is not None:
+                    # the producer updates its buffer in place and publishes the same object again
+                    rawj[...] = np.array([v / 8.0 for v in p["vals"]], dtype=float).reshape(rawj.shape)
             else:
                 size = _prod(p["shape"])
                 if b is not None:
@@ -631,9 +704,20 @@ def run_impl(case):
                 res = {"shape": [int(x) for x in m.shape], "vals": _frac_list(np.ma.getdata(m)),
                        "mask": [bool(x) for x in np.ma.getmaskarray(m).ravel()] if isinstance(m, np.ma.MaskedArray) else None,
                        "units": _unit_name(d.units)}
+                scribbled = False
+                if len(op) > 3 and op[3] == "scribble":
+                    # a consumer working in place on the array it received - only if that array is its own (shares no
+                    # memory with a retained publication: without conversion finam hands out the stored array itself)
+                    arr = np.ma.getdata(m)
+                    own = isinstance(arr, np.ndarray) and not any(
+                        (not isinstance(e[1], str)) and np.shares_memory(np.ma.getdata(e[1].magnitude), arr) for e in out.data)
+                    if own:
+                        arr[...] = arr * 0.25 + 1000.0
+                        scribbled = True
             except Exception as e:  # noqa
                 res = err_class(e)
-            events.append({"op": "pull", "t": op[1], "k": k, "res": res, "oldest": oldest, "newest": newest})
+                scribbled = False
+            events.append({"op": "pull", "t": op[1], "k": k, "res": res, "oldest": oldest, "newest": newest, "scribbled": scribbled})
     spilled = 0
     if tmpdir is not None:
         import os
@@ -669,7 +753,8 @@ def _coq_grid(case, obs):
 
 def coq_case(case, obs):
     m = case["mask"]
-    mask = "MFlex" if m == "flex" else "MNone" if m == "none" else C("MBits", L(B(b) for b in m))
+    # np.ma.nomask = a one-element all-false mask that numpy resizes to any data
+    mask = "MFlex" if m == "flex" else "MNone" if m == "none" else C("MBits", L([B(False)])) if m == "nomask" else C("MBits", L(B(b) for b in m))
     inf = C("mkI", _coq_grid(case, obs), _coq_unit(case["uo"]), mask)
     ops = []
     for ev in obs["events"]:
@@ -952,4 +1037,7 @@ def shrink_candidates(case):
         rest = ops[:i] + ops[i + 1:]
         if any(o[0] == "push" and o[2].get("buf") and "same_as" in o[2]["buf"] for o in rest) and ops[i][0] == "push":
             continue  # keeps 'same_as' indices valid
+        if any(o[0] == "push" and o[2].get("buf") and "reuse" in o[2]["buf"] for o in ops):
+            if ops[i][0] == "push" or any(o[0] == "push" for o in ops[i:]):
+                continue  # keeps 'reuse' indices and the intact-buffer discipline valid: only trailing pulls are removed
         yield dict(case, ops=rest)
